@@ -13,7 +13,7 @@ ASSUME = ['inputs are finite reals satisfying the documented validity predicate 
           'exceptions terminate a path; message formatting is not executed symbolically']
 
 def opts(tier, a=None):
-    return {'jobs': 2, 'procs': 16, 'per_check_ms': 20000 if tier == 'quick' else 120000, 'lemma_ms': 6000 if tier == 'quick' else 30000, 'cf_cap': 60 if tier == 'quick' else 300, 'trunc_ms': 2500 if tier == 'quick' else 20000, 'wall_cap': 300 if tier == 'quick' else 900,
+    return {'jobs': 2, 'procs': 16, 'per_check_ms': 20000 if tier == 'quick' else 120000, 'lemma_ms': 6000 if tier == 'quick' else 30000, 'cf_cap': 60 if tier == 'quick' else 300, 'trunc_ms': 2500 if tier == 'quick' else 20000, 'wall_cap': 300 if tier == 'quick' else 900, 'crosscheck': tier != 'quick',
             'approx_tol': 1e-7, 'nsamples': 60 if tier == 'quick' else 200, 'seed': int(os.environ.get('VERIF_SEED', '0') or 0)}
 
 def tags(tier):
